@@ -62,16 +62,17 @@ package gateway
 // ---------- weight step ----------
 // Per rule, for route rule lists of every length: a rule that does not reference the stable Service is passed through
 // untouched; a rule that does gets a rebuilt backendRefs list with one more entry exactly when the canary ref was
-// missing, in which every backend that is neither the stable nor the canary Service keeps its position and content; matches
-// and filters are kept. The input rules are never written.
+// missing, which contains the stable Service with weight 100-w and the canary Service with weight w and in which every
+// backend that is neither of the two keeps its position and content; matches and filters are kept. The input rules are never written.
 //@ define firstSvc(bs, name, k) = isSvc(bs[k], name) && (forall m :: 0 <= m && m < k ==> !isSvc(bs[m], name))
 //@ define hasSvcIn(bs, name) = exists k :: 0 <= k && k < len(bs) && isSvc(bs[k], name)
 //@ define weighted(bs, name, w) = forall k :: 0 <= k && k < len(bs) ==> (firstSvc(bs, name, k) ==> bs[k].Weight != nil && *bs[k].Weight == w)
 //@ define othersKept(d, r0, stable, canary) = forall k :: 0 <= k && k < len(r0) ==> (!isSvc(r0[k], stable) && !isSvc(r0[k], canary) ==> sameBackend(d[k], r0[k]))
-// (NOT claimed: that the first stable ref ends with weight 100-w and the first canary ref with weight w. Both are set by
-// two consecutive setServiceBackendRef calls whose contracts are proved, but after the second call the solver has to
-// re-derive which ref is the first one of each Service and the loop invariant did not discharge reliably.)
-//@ define ruleSplit(d, r0, stable, canary, w) = len(d) == len(r0) + ite(hasSvcIn(r0, canary), 0, 1) && othersKept(d, r0, stable, canary)
+// (The weights are claimed in existence form: the rebuilt list contains a ref of the stable Service with weight 100-w and
+// a ref of the canary Service with weight w. NOT claimed: that it is the first ref of each Service, or - should a rule list
+// the same Service twice - every one.)
+//@ define hasWeighted(bs, name, w) = exists k :: 0 <= k && k < len(bs) && isSvc(bs[k], name) && bs[k].Weight != nil && *bs[k].Weight == w
+//@ define ruleSplit(d, r0, stable, canary, w) = len(d) == len(r0) + ite(hasSvcIn(r0, canary), 0, 1) && othersKept(d, r0, stable, canary) && hasWeighted(d, stable, 100 - w) && hasWeighted(d, canary, w)
 //@ define ruleKept(rs, i) = rs[i].BackendRefs == old(rs[i].BackendRefs) && rs[i].Matches == old(rs[i].Matches) && rs[i].Filters == old(rs[i].Filters)
 //@ define refKept(rs, i, k) = rs[i].BackendRefs[k].Group == old(rs[i].BackendRefs[k].Group) && rs[i].BackendRefs[k].Kind == old(rs[i].BackendRefs[k].Kind) && rs[i].BackendRefs[k].Name == old(rs[i].BackendRefs[k].Name) && rs[i].BackendRefs[k].Namespace == old(rs[i].BackendRefs[k].Namespace) && rs[i].BackendRefs[k].Port == old(rs[i].BackendRefs[k].Port) && rs[i].BackendRefs[k].Weight == old(rs[i].BackendRefs[k].Weight) && rs[i].BackendRefs[k].Filters == old(rs[i].BackendRefs[k].Filters)
 
@@ -92,6 +93,9 @@ package gateway
 //@ loop 1 invariant kept_or_rebuilt: forall i :: 0 <= i && i <= rangeindex ==> (desired[i].BackendRefs == rules[i].BackendRefs && noSvcIn(rules[i].BackendRefs, r.conf.StableService)) || (fresh(desired[i].BackendRefs) && hasSvcIn(rules[i].BackendRefs, r.conf.StableService))
 //@ loop 1 invariant split_len: forall i :: 0 <= i && i <= rangeindex ==> (fresh(desired[i].BackendRefs) ==> len(desired[i].BackendRefs) == len(rules[i].BackendRefs) + ite(hasSvcIn(rules[i].BackendRefs, r.conf.CanaryService), 0, 1))
 //@ loop 1 invariant split_others: forall i :: 0 <= i && i <= rangeindex ==> (fresh(desired[i].BackendRefs) ==> othersKept(desired[i].BackendRefs, rules[i].BackendRefs, r.conf.StableService, r.conf.CanaryService))
+
+//@ loop 1 invariant split_stable: forall i :: 0 <= i && i <= rangeindex ==> (fresh(desired[i].BackendRefs) ==> hasWeighted(desired[i].BackendRefs, r.conf.StableService, 100 - *weight))
+//@ loop 1 invariant split_canary: forall i :: 0 <= i && i <= rangeindex ==> (fresh(desired[i].BackendRefs) ==> hasWeighted(desired[i].BackendRefs, r.conf.CanaryService, *weight))
 
 // ---------- dispatch and restore ----------
 //@ track (*gatewayController).buildCanaryHeaderHttpRoutes as headerRoutes
